@@ -130,7 +130,51 @@ def gen_font(rng):
             ("languagesystem DFLT dflt;\nlanguagesystem latn dflt;\n" if rng.random() < 0.3 else "")}
 
 
+def color_graph_section(ctx):
+    """markFeatureWriter.colorGraph against Mark/Color.v on random conflict graphs, given as dicts in random insertion order
+    with neighbour lists in random order"""
+    from ufo2ft.featureWriters.markFeatureWriter import colorGraph
+    rng = ctx.subrng("color")
+    cases, meta = [], []
+    for i in range(ctx.budget(200, 2000)):
+        n = rng.randint(1, 8)
+        nodes = ["MC_%s" % x for x in rng.sample(["top", "bottom", "ogonek", "ring", "horn", "cedilla", "nukta", "alt", "x", "top.alt"], n)]
+        edges = set()
+        style = rng.random()
+        if style < 0.3 and n >= 3:
+            order = list(nodes); rng.shuffle(order)
+            edges = {frozenset(order[j:j + 2]) for j in range(len(order) - 1)}          # a chain
+        else:
+            for a in nodes:
+                for b in nodes:
+                    if a < b and rng.random() < 0.35:
+                        edges.add(frozenset((a, b)))
+        adj = {}
+        keys = list(nodes); rng.shuffle(keys)
+        for k in keys:
+            nb = [x for x in nodes if frozenset((k, x)) in edges]
+            rng.shuffle(nb)
+            adj[k] = nb
+        got = colorGraph(adj)
+        g_adj = G.lst([G.tup(G.s(k), G.lst([G.s(x) for x in v], "str")) for k, v in adj.items()], "(str * list str)")
+        cases.append(G.tup(g_adj, G.lst([G.lst([G.s(x) for x in grp], "str") for grp in got], "(list str)")))
+        meta.append({"adjacency": {k: list(v) for k, v in adj.items()}, "colorGraph": [list(g) for g in got]})
+        ctx.count(); ctx.klass("colorGraph:%d vertices" % n)
+        if edges:
+            ctx.nontriv(("color", tuple(sorted(tuple(sorted(e)) for e in edges))))
+    vals = ctx.coq_eval("From U2F Require Import Base.Prelude Mark.Color.",
+                        "fun c : (adjacency * list (list str)) => c06_color (fst c) (snd c)", cases, chunk=400, tag="Color")
+    for v, case in zip(vals, meta):
+        if v is None:
+            continue
+        if not v & 2:
+            ctx.spec_failure(case, "colorGraph put two conflicting mark classes into one group, or lost / duplicated a class")
+        elif not v & 1:
+            ctx.corr_mismatch(case, "Gallina color_graph differs from markFeatureWriter.colorGraph")
+
+
 def explore(ctx):
+    color_graph_section(ctx)
     import ufo2ft
     from fontTools.ttLib import TTFont
     from ufo2ft.featureWriters import MarkFeatureWriter, GdefFeatureWriter
